@@ -194,7 +194,7 @@ impl WeightedSampler {
         let mut weighted_keys: Vec<(f64, NodeId)> = candidates
             .iter()
             .map(|(node_id, weight)| {
-                if *weight <= 0.0 {
+                if weight.is_nan() || *weight <= 0.0 {
                     return Err(PlacementError::InvalidWeight {
                         node_id: node_id.clone(),
                         weight: *weight,
